@@ -13,7 +13,7 @@ RULE = (
     "several spellings (positional / keyword / defaults / keyword-only), await one or several earlier calls (same yield "
     "or later), let a flush pass, dirty(key)} against deduplicated plain functions, methods on two instances and a "
     "static method, a deduplicated async_proxy forwarding to another function with different arguments, two same-named functions made by one factory (equal module and __qualname__, different objects) and methods of two same-named classes whose instances compare equal, over 2-3 keys (in 40% of the histories different keys with EQUAL hashes: -1/-2, 0/2**61-1); bodies block on one or two batch flushes, succeed or raise, and optionally re-enter "
-    "their own key synchronously. Several get_priority() policies, both builds. Model: key -> in-flight task (created, "
+    "their own key synchronously - at the start of the body or from an except handler after an awaited task failed; after the actors, deduplicated async_proxy functions whose result is not a task (a finished ConstFuture: every call runs the proxy again; a pending batch item: shared while in flight, fresh afterwards). Several get_priority() policies, both builds. Model: key -> in-flight task (created, "
     "not complete, not dirtied), maintained from the returned objects and their on_computed events. Oracles: a call from "
     "outside the running body returns the model's task (identity) or, if none, a task that is not already computed and "
     "was never handed out for another key; body executions per created-and-awaited task = 1 (keyed by "
@@ -49,7 +49,10 @@ class World(object):
         self.dirtied = set()
         self.item_ctr = itertools.count()
         self.created = []  # tasks the model considers freshly created
+        self.proxy_runs = []
         self.answers_checked = 0
+        self.reentries_from_handler = 0
+        self.proxy_checks = 0
 
 
 def body(fn, key):
@@ -68,6 +71,17 @@ def body(fn, key):
         c = w.cfg.get(repr(mk), {})
         if c.get("reenter") and not nested:
             reenter_helper(fn, key)
+        if c.get("reenter_in_handler") and not nested:
+            # the same request, issued from an except handler after an awaited task failed
+            w.running.pop()
+            try:
+                try:
+                    yield fns()["failing"].asynq()
+                finally:
+                    w.running.append(mk)
+            except UserErr:
+                w.reentries_from_handler += 1
+                reenter_helper(fn, key)
         for i in range(c.get("blocks", 1)):
             w.running.pop()
             try:
@@ -135,6 +149,27 @@ def fns():
     def px(a, b=0, *, c=1):
         return px_inner.asynq((a, b, c))
 
+    @A()
+    def failing():
+        yield None
+        raise UserErr(("planned",))
+
+    # deduplicated proxies that hand back futures which are not tasks: a finished ConstFuture, a batch item
+    from asynq import ConstFuture
+    from .. import harness
+
+    @deduplicate()
+    @async_proxy()
+    def pxc(a, b=0, *, c=1):
+        W.proxy_runs.append(("pxc", (a, b, c)))
+        return ConstFuture(("res", "pxc", (a, b, c), len(W.proxy_runs)))
+
+    @deduplicate()
+    @async_proxy()
+    def pxi(a, b=0, *, c=1):
+        W.proxy_runs.append(("pxi", (a, b, c)))
+        return harness.HItem(W.rt, 0, "pxi%d" % len(W.proxy_runs), ("pxi", (a, b, c), len(W.proxy_runs)))
+
     def make_twin(tag):
         # different function objects with the same module, name and qualified name
         @deduplicate()
@@ -160,7 +195,7 @@ def fns():
 
         return P
 
-    _fns.update(f=f, g=g, K=K, o1=K("o1"), o2=K("o2"), helper=helper, t1=make_twin("t1"), t2=make_twin("t2"), px=px, p1=make_cls("p:1")(), p2=make_cls("p:2")())
+    _fns.update(f=f, g=g, K=K, o1=K("o1"), o2=K("o2"), helper=helper, t1=make_twin("t1"), t2=make_twin("t2"), px=px, pxc=pxc, pxi=pxi, failing=failing, p1=make_cls("p:1")(), p2=make_cls("p:2")())
     return _fns
 
 
@@ -309,7 +344,7 @@ def make_script(rnd):
     cfg = {}
     for fn in fnames:
         for k in keys:
-            cfg[repr((fn, k))] = {"blocks": rnd.choice([1, 1, 2, 3]), "fail": rnd.random() < 0.25, "reenter": rnd.random() < 0.2, "reenter_spelling": rnd.randrange(6)}
+            cfg[repr((fn, k))] = {"blocks": rnd.choice([1, 1, 2, 3]), "fail": rnd.random() < 0.25, "reenter": rnd.random() < 0.2, "reenter_spelling": rnd.randrange(6), "reenter_in_handler": rnd.random() < 0.12}
     actors = []
     for a in range(rnd.randint(2, 6)):
         script = []
@@ -376,8 +411,42 @@ def run_script(sc, prio, seed):
         return len(calls)
 
     @A()
+    def proxy_part():
+        """Deduplicated proxies whose result is not a task."""
+        F = fns()
+        for key in sorted(set(tuple(k) for a in sc["actors"] for st in a if st[0] in ("call", "dirty") for k in [st[2]]))[:2]:
+            for sp in (0, 2):
+                args, kw = spell(key, sp)
+                n0 = len(w.proxy_runs)
+                # a finished future: nothing is in flight, every call runs the proxy again
+                f1 = F["pxc"].asynq(*args, **kw)
+                v1 = yield f1
+                f2 = F["pxc"].asynq(*args, **kw)
+                v2 = yield f2
+                w.proxy_checks += 1
+                if not (isinstance(v1, tuple) and v1[:3] == ("res", "pxc", key) and isinstance(v2, tuple) and v2[:3] == ("res", "pxc", key)):
+                    w.viol.append(("deduplicated-proxy-answer", {"proxy": "returns ConstFuture", "key": key, "values": repr((v1, v2))[:160]}))
+                elif len(w.proxy_runs) - n0 != 2:
+                    w.viol.append(("deduplicated-proxy-executions", {"proxy": "returns ConstFuture", "key": key, "executions": len(w.proxy_runs) - n0, "expected": 2}))
+                # a pending batch item: shared while in flight, fresh afterwards
+                n0 = len(w.proxy_runs)
+                i1 = F["pxi"].asynq(*args, **kw)
+                i2 = F["pxi"].asynq(*args, **kw)
+                if i2 is not i1:
+                    w.viol.append(("in-flight-task-not-shared", {"proxy": "returns a batch item", "key": key}))
+                a1, a2 = yield i1, i2
+                i3 = F["pxi"].asynq(*args, **kw)
+                if i3 is i1 or i3.is_computed():
+                    w.viol.append(("completed-task-returned-for-new-call", {"proxy": "returns a batch item", "key": key}))
+                a3 = yield i3
+                w.proxy_checks += 1
+                if len(w.proxy_runs) - n0 != 2:
+                    w.viol.append(("deduplicated-proxy-executions", {"proxy": "returns a batch item", "key": key, "executions": len(w.proxy_runs) - n0, "expected": 2}))
+
+    @A()
     def root():
         yield [actor.asynq(s) for s in sc["actors"]]
+        yield proxy_part.asynq()
 
     rt.attach()
     try:
@@ -441,6 +510,8 @@ def run_unit(unit, progress):
             inc("reruns_after_completion", w.after_completion)
             inc("reruns_after_dirty", w.after_dirty)
             inc("answers_checked_against_requested_arguments", w.answers_checked)
+            inc("reentries_from_an_except_handler", w.reentries_from_handler)
+            inc("deduplicated_proxy_checks", w.proxy_checks)
             blocked += w.calls_inflight_blocked
             if viol and not bad:
                 bad = True
